@@ -15,6 +15,9 @@ REPO = os.environ.get('VERIF_REPO', '/repo')
 sys.path.insert(0, REPO)
 os.environ.setdefault('PHASEGEN_VERIF', '1')
 os.environ.setdefault('MPLBACKEND', 'Agg')
+# one BLAS thread per worker process: the checks parallelise over cases
+for _v in ('OMP_NUM_THREADS', 'OPENBLAS_NUM_THREADS', 'MKL_NUM_THREADS', 'NUMEXPR_NUM_THREADS'):
+    os.environ.setdefault(_v, '1')
 import warnings
 warnings.filterwarnings('ignore')
 
